@@ -270,6 +270,11 @@ def make_tpl_dir(kind, lang, pkg_lang_dir, dest):
             "macros/more/util.j2": "{% macro wrap(n) %}[{{ n }}]{% endmacro %}\n",
             "macros/header.j2": "{% macro unused() %}{% endmacro %}\n",
             "data/values.txt": "values-text\n",
+            # byte code the interpreter leaves behind: not an input (changes by itself); a template below such a directory is
+            # still a template
+            "__pycache__/junk.cpython-312.pyc": "not really byte code\n",
+            "macros/__pycache__/util.cpython-312.pyc": "not really byte code\n",
+            "parts/__pycache__/cached.j2": "a template in an odd place, never included\n",
         })
         add_linked_templates(dest)
     elif kind == "any":
@@ -475,11 +480,15 @@ class Sandbox:
             fs = list_dir_files(d, with_link_flag=True)
             return ",".join(enc(n) + "~" + enc(p) + ("~L" if via else "") for n, p, via in fs) if fs else "@"
 
+        lookup = set()
+        for l in getattr(self, "spec", {"lookups": []})["lookups"]:
+            for pat in ("*.dsdl", "*.uavcan"):
+                lookup |= {os.path.realpath(str(p)) for p in (self.ind / l).rglob(pat) if p.is_file()}
         ents = lst(("1" if e["isNs"] else "0") + "~" + lst(map(enc, e["comps"]), "+") + "~" + enc(e["stem"]) + "~" + enc(e["src"]) + "~" +
                    lst(map(enc, e["cands"]), "+") + "~" + lst(map(enc, e["deps"]), "+") for e in self.entries)
         return " ".join(["run", variant, flags, c["lang"], lst(map(enc, c.get("extra_ser", []))), lst(map(enc, c.get("extra_type", []))),
                          enc(self.pkg_lang_dir), enc(self.outarg), c["gs"], str(c["omit"]), str(c["gnt"]), opt(c.get("ext")),
-                         opt(c.get("stem")), tfiles(self.tpl), tfiles(self.stpl), ents])
+                         opt(c.get("stem")), tfiles(self.tpl), tfiles(self.stpl), ents, lst(map(enc, sorted(lookup)))])
 
     def norm(self, p):
         """The file a printed / predicted path names: resolved identity (symbolic links followed component by
@@ -733,6 +742,9 @@ def evaluate(ctx, sb, obs, model, stream):
             for n, p, via in list_dir_files(sb.tpl, with_link_flag=True):
                 if n.endswith(".j2"):
                     (linked if via else must).append(p)
+                elif "__pycache__" in n.split("/")[:-1] and p in printed:
+                    ctx.fail({"kind": "list-inputs-names-bytecode"}, "--list-inputs prints a file below a __pycache__ directory (changes by itself)",
+                             {"cfg": ck, "file": os.path.relpath(p, base)})
         missing = sorted(set(must) - printed)
         if missing:
             ctx.fail({"kind": "unlisted-input", "class": "structural"} | ({"with_list_configuration": 1} if li["flags"][2] == "1" else {}),
@@ -936,6 +948,8 @@ class MutationSearch:
             info[mi] = {"cfg": cfg, "listed": listed, "baseline": out1, "unstable": unstable, "reads": model_reads, "influential": {}}
             for c in sorted(set(cands)):
                 nm = len(mutations(self.abspath(slot0, sb, c)))
+                if ctx.quick and c.startswith("PKG/") and c in listed:
+                    nm = min(nm, 1)     # a packaged file that is listed anyway: one operator is enough to tie `reads`
                 for k in range(nm):
                     tasks.append((mi, c, k))
             shutil.rmtree(sb.base, ignore_errors=True)
